@@ -524,7 +524,7 @@ func init() {
 		lockPaths(run, "client", "glow")
 		// five and six configured servers: every way for all five attempts to fail with one kind of failure,
 		// mixed failures, and success on exactly the fifth attempt
-		for _, servers := range []int{5, 6} {
+		for _, servers := range []int{4, 5, 6} {
 			for _, o := range outs[:5] {
 				jobs = append(jobs, c11Job{Part: "rounds", Servers: servers, Outcomes: []string{o, o, o, o, o}})
 			}
